@@ -96,6 +96,9 @@ do_collect(void)
   iblk->next += wblk->weight;
 
   if (0u < iblk->left) {
+#ifdef KJN_LBZIP2_VERIF
+    vh_event(VH_EV_COLLECT_SPLIT);
+#endif
     ++wblk->next.minor;
     ++iblk->pos.minor;
     sched_lock();
@@ -213,6 +216,10 @@ do_transmit(void)
   struct work_blk *wblk;
 
   wblk = dequeue(trans_q);
+#ifdef KJN_LBZIP2_VERIF
+  if (out_slots <= TRANSM_THRESH)
+    vh_event(VH_EV_TRANSMIT_ESCAPE);
+#endif
   --out_slots;
   sched_unlock();
 
@@ -243,6 +250,9 @@ do_reorder(void)
   wblk = dequeue(reord_q);
   order = wblk->next;
 
+#ifdef KJN_LBZIP2_VERIF
+  vh_order(wblk->pos.major, wblk->pos.minor);
+#endif
   sink_write_buffer(wblk->buffer, wblk->size, wblk->weight);
   combined_crc = combine_crc(combined_crc, wblk->crc);
 
